@@ -57,7 +57,7 @@ def bounds(tier):
 
 
 def required_regimes(tier):
-    return {'layer:1', 'layer:2', 'bp', 'colour', 'C:2', 'k:2', 'k:1', 'k:0', 'dense', 'magbias:0', 'odd_size_values', 'extended_size_values', 'size:2'}
+    return {'layer:1', 'layer:2', 'bp', 'colour', 'C:2', 'k:2', 'k:1', 'k:0', 'dense', 'magbias:0', 'odd_size_values', 'extended_size_values', 'size:2', 'input:requires_grad'}
 
 
 def _inputs(C, H, W, k2):
@@ -138,6 +138,15 @@ def run(item):
             res['evals'] += X.shape[0]
             res.regime(*tags)
             res.regime(*set(kinds))
+            # the same batch as an input that requires grad (autograd recording): identical values
+            try:
+                Zg = mod(xt[:64].clone().requires_grad_(True)).detach().numpy()
+                res.regime('input:requires_grad')
+                if Zg.shape != Z[:64].shape or not np.array_equal(Zg, Z[:64]):
+                    res.violation('scat_values', dict(cfg, input_requires_grad=True), {'kind': 'value', 'maxdev': float(np.abs(Zg - Z[:64]).max()) if Zg.shape == Z[:64].shape else None,
+                                                                                        'what': 'output differs between a plain input and one that requires grad'}, tags)
+            except Exception as e:
+                res.violation('scat_forward', dict(cfg, input_requires_grad=True), {'kind': 'raise', 'exc': repr(e)[:200]}, tags)
             nch = (7 * C if layer == 1 else 49 * C) if not colour else (9 if layer == 1 else 51)
             if Z.shape != (X.shape[0], nch) + exp_hw:
                 res.violation('scat_forward', cfg, {'kind': 'shape', 'observed': list(Z.shape[1:]), 'expected': [nch] + list(exp_hw)}, tags)
